@@ -346,6 +346,9 @@ func ConvertJsonValueToTv(d any, slt *sdcpb.SchemaLeafType) (*sdcpb.TypedValue, 
 			Value: &sdcpb.TypedValue_StringVal{StringVal: v},
 		}, nil
 	case "leafref":
+		if slt.LeafrefTargetType == nil {
+			return nil, fmt.Errorf("leafref without a target type, unable to convert %v", d)
+		}
 		return ConvertJsonValueToTv(d, slt.LeafrefTargetType)
 	case "identityref":
 		v, ok := d.(string)
